@@ -124,7 +124,7 @@ Section Equiv.
   Proof.
     unfold gen_assignCrowdingDist. intro H.
     first [ (* the translator refused: the definition is the hand model *)
-            solve [unfold model_assignCrowdingDist in H; injection H as <-; reflexivity]
+            solve [unfold model_assignCrowdingDist in H; inversion H; reflexivity]
           | cbv beta zeta in H; minv; first [ solve [assign_empty] | solve [assign_main] ] ].
   Qed.
 
